@@ -25,15 +25,21 @@
    does every later history of operations (connected_client_history_on_both_connections; and
    every_typed_history_keeps_the_connected_client_in_sync, where the condition on the order of messages
    is itself proved of every operation: System/Orderly.v, every_operation_is_orderly).
-   PARTIAL: the system model settles after every operation; operations that overlap in time with
-   the delivery of earlier ones, and several drivers / several clients at once, are validated by
-   the system-level correspondence (schedules family), not proved.  That the system model is the
-   real stack (router, serializer, fragmented byte stream, framing) is the correspondence itself.
+   Several drivers at once (System/Interleave.v): a client's view of one device depends on the messages
+   about that device alone, in their order (a_device_view_is_its_own_stream), so however the streams of
+   several drivers are interleaved on the way to the client it ends in sync with every one of them
+   (several_drivers_at_once).  Several clients: each has its own mirror; which messages each receives is
+   the router's matter (C05).
+   PARTIAL: the composed system model settles after every operation and holds one driver and one client;
+   two operations on the SAME device that overlap in time with each other's delivery across the two
+   connections, and the routing of several drivers and clients through one server, are validated by the
+   system-level correspondence (schedules family), not proved.  That the system model is the real stack
+   (router, serializer, fragmented byte stream, framing) is the correspondence itself.
    REFUTED for BLOB payloads (the comparison leaves them out): a definition carries no
    payload (known finding K2). *)
 From Coq Require Import List NArith Bool String.
 Import ListNotations.
-From Indi Require Import Base.Sx Msg.Equality Driver.Model Driver.Props Client.Model Client.Props Client.Update Client.Norm System.Model System.Converge System.Ops System.Deliver System.Handshake System.Reorder System.Orderly.
+From Indi Require Import Base.Sx Msg.Equality Driver.Model Driver.Props Client.Model Client.Props Client.Update Client.Norm System.Model System.Converge System.Ops System.Deliver System.Handshake System.Reorder System.Orderly System.Interleave.
 
 Theorem a_definition_brings_the_entry_in_sync mi d g v :
   vec_on g v = true ->
@@ -259,3 +265,27 @@ Theorem every_typed_history_keeps_the_connected_client_in_sync ops s c e d :
     cl_in_ctl c' = [] /\ cl_in_blob c' = [].
 Proof. exact (network_client_history_typed ops s c e d). Qed.
 Print Assumptions every_typed_history_keeps_the_connected_client_in_sync.
+
+(* ---------- several drivers ---------- *)
+(* what a client shows of device dn after ANY sequence of driver messages is what it would show after the
+   messages naming dn alone, in their order *)
+Theorem a_device_view_is_its_own_stream dn ms :
+  Forall (fun m => exists d v, about d v m) ms ->
+  forall v, get_vec (feed [] ms) dn v = get_vec (feed [] (filter (from_device dn) ms)) dn v.
+Proof.
+  intros H. exact (view_of_a_device_is_its_own_stream dn ms [] [] H ltac:(intros cd []) ltac:(intros cd []) (fun v => eq_refl)).
+Qed.
+Print Assumptions a_device_view_is_its_own_stream.
+
+(* ds: drivers (any definitions without event handlers, names pairwise different by the third hypothesis) with
+   their histories of typed operations.  ms: anything the client receives such that, for every driver, the
+   messages naming it are - in order - that driver's handshake answer followed by what its history publishes:
+   an ARBITRARY interleaving of the streams.  Then the client, starting with nothing, ends in sync with every
+   driver as its history leaves it. *)
+Theorem several_drivers_at_once (ds : list (dev * list dop)) (ms : list msg) :
+  (forall d ops, In (d, ops) ds -> dev_ok d /\ ops_typed d ops) ->
+  Forall (fun m => exists d v, about d v m) ms ->
+  (forall d ops, In (d, ops) ds -> filter (from_device (d_name d)) ms = stream_of d ops) ->
+  forall d ops, In (d, ops) ds -> synced (feed [] ms) (fst (run d ops)).
+Proof. exact (System.Interleave.several_drivers_at_once ds ms). Qed.
+Print Assumptions several_drivers_at_once.
